@@ -18,7 +18,7 @@ class SQLError(Exception):
 
 TOKEN_RE = re.compile(
     r"""\s*(?:
-      (?P<hole>⟦[^⟧]*⟧)
+      (?P<hole>⟦(?:[^⟦⟧]|⟦[^⟦⟧]*⟧)*⟧)
     | (?P<num>\d+(?:\.\d+)?)
     | (?P<str>'(?:[^']|'')*')
     | (?P<named>:[A-Za-z_][A-Za-z_0-9]*)
@@ -502,6 +502,17 @@ class Parser:
             self.expect("punct", ")")
             e = ("in", left, rhs)
             return ("not", e) if neg else e
+        if self.at_kw("between") or (self.at_kw("not") and self.peek(1).kind == "kw" and self.peek(1).val == "between"):
+            # x [NOT] BETWEEN a AND b  ==  [NOT] (x >= a AND x <= b); the operands bind tighter than AND
+            nb = self.at_kw("not")
+            if nb:
+                self.next()
+            self.next()
+            lo = self.parse_add()
+            self.expect_kw("and")
+            hi = self.parse_add()
+            e = ("and", [("cmp", ">=", left, lo), ("cmp", "<=", left, hi)])
+            return ("not", e) if nb else e
         if self.at_kw("is"):
             self.next()
             n = False
